@@ -3,11 +3,11 @@ usage: collect_seeds.py <verify log> C01 S02 ...   (worktree Snn = round 2 of pr
 import json, os, re, shutil, sys
 log = open(sys.argv[1]).read()
 res = {}
-for m in re.finditer(r"^([CSTUV]\d\d)/([A-M]): clean_rc=(\d+) patched_rc=(\d+) suite='([^']*)' failedset=(\w+) base=(\w+)", log, re.M):
+for m in re.finditer(r"^([CSTUVW]\d\d)/([A-O]): clean_rc=(\d+) patched_rc=(\d+) suite='([^']*)' failedset=(\w+) base=(\w+)", log, re.M):
     res[(m.group(1), m.group(2))] = m.groups()[2:]
 for wt in sys.argv[2:]:
     pid = 'C' + wt[1:]
-    for v in {'C': 'AB', 'S': 'CD', 'T': 'EF', 'U': 'JK', 'V': 'LM'}[wt[0]]:
+    for v in {'C': 'AB', 'S': 'CD', 'T': 'EF', 'U': 'JK', 'V': 'LM', 'W': 'NO'}[wt[0]]:
         src = f'/tmp/wt/{wt}/_seed/{v}'
         if (wt, v) not in res or not os.path.exists(src + '/patch.diff'):
             print('skip', pid, v); continue
@@ -23,7 +23,7 @@ for wt in sys.argv[2:]:
         notes = open(f'{src}/notes.md').read() if os.path.exists(f'{src}/notes.md') else ''
         meta = {
             'id': f'{pid}-{v}', 'property': pid,
-            'origin': 'independent sub-agent given only the property text and a scratch worktree of /repo' + ({'T': ' HEAD b1cfd31', 'U': ' HEAD 4b20d70', 'V': ' HEAD c9dd987'}.get(wt[0], ' HEAD 4965b20')),
+            'origin': 'independent sub-agent given only the property text and a scratch worktree of /repo' + ({'T': ' HEAD b1cfd31', 'U': ' HEAD 4b20d70', 'V': ' HEAD c9dd987', 'W': ' HEAD dd38410'}.get(wt[0], ' HEAD 4965b20')),
             'needs_to_manifest': 'see notes.md (written by the sub-agent): ' + ' '.join(notes.split())[:600],
             'confirmed_by_me': {
                 'how': f'tools/verify_seeds.sh in the scratch worktree /tmp/wt/{wt}: demo.py on the clean tree, git apply patch.diff, demo.py again, full pytest suite, git checkout',
